@@ -45,6 +45,13 @@ def gen(ctx, path):
             near.append(combo)
         near += [(1.0, 1.0 - u, 0.5), (0.5, 1.0, 1.0 - u), (1.0 - u, 0.5, 0.5 - u), (u, 0.0, 0.0), (u, u, 0.0), (0.5, 0.5 + u, 0.5), (0.5, 0.5, 0.5 - u)]
     pts += near
+    # a second component a hair above the third (hues a hair off a sector edge: -6e-8 rounds to a whole turn), and the
+    # 8-bit greys (exactly zero chroma in Oklab for some of them in f32: the achromatic branches)
+    for tiny in (1e-9, 6e-8, 1e-16):
+        for base in ((1.0, 0.0), (0.5, 0.25), (0.75, 0.0)):
+            for perm in set(itertools.permutations((base[0], base[1], base[1] + tiny))):
+                pts.append(perm)
+    pts += [(k / 255.0,) * 3 for k in range(256)]
     for p in pts:
         for S in CYL:
             c.add(**{"from": "srgb", "in": p, "path": [S, "srgb"], "mode": "u", "tag": "rev"})
